@@ -23,7 +23,7 @@ RULE = ("Hypothesis: general graphs x base configuration (6 switches, threshold,
         "graph has a feature the flipped option can touch (a constraint below 100 %, a '?', a {k>1}, >=2 non-literal "
         "alternatives, a ratio with >2 decimals, a prefixable IRI); distinct by SHA-1 of the case.")
 ASSUMPTIONS = c01.ASSUMPTIONS
-BUDGET = {"quick": {"examples": 16000, "wall": 150}, "thorough": {"examples": 400000, "wall": 5400}}
+BUDGET = {"quick": {"examples": 16000, "wall": 150}, "thorough": {"examples": 150000, "wall": 900}}
 FLOORS = {"nontrivial": 0.25}
 NS_DICTS = [
     {"http://ex.org/": "ex", "http://www.w3.org/2001/XMLSchema#": "xsd", "http://www.w3.org/1999/02/22-rdf-syntax-ns#": "rdf"},
